@@ -44,6 +44,7 @@ func checkC17(ctx *Ctx, r *Report) {
 	c17UnfoldTestsTarget(ctx, r)
 	c17FourthRound(ctx, r)
 	c17MethodChangeLocated(ctx, r)
+	c18LiteralsShareSlices(ctx, r)
 	// the copies veneers rely on
 	for _, m := range findCopyMethods(ctx) {
 		if m.pkg.PkgPath == astPkgPath {
